@@ -402,6 +402,16 @@ func (in *interp) nodes(ns []Node) ([]*xm, string) {
 			if n.Set.If != nil && in.holds(*n.Set.If) {
 				out = append(out, &xm{id: n.Set.ID, why: "wrapper of the setter of " + n.Set.Name + ", " + in.scopeNote()})
 			}
+		case n.Wrap != nil:
+			kids, t := in.nodes(n.Wrap.Body)
+			in.stat("container=" + n.Wrap.Kind)
+			if n.Wrap.Kind == "template" {
+				out = append(out, kids...)
+				text.WriteString(t)
+			} else {
+				id := n.Wrap.ID
+				out = append(out, &xm{id: id, kids: kids, text: t, why: "<" + n.Wrap.Kind + "> around loops"})
+			}
 		case n.Pre != nil:
 			saved := in.raw
 			var sb strings.Builder
@@ -606,6 +616,21 @@ func (in *interp) probe(p *Probe) *xm {
 				}
 				texts = append(texts, d)
 			}
+		case "ctx":
+			// a registered func(ctx *vuego.VueContext, path string) reading ctx.Stack().Resolve(path)
+			// at the call site sees what {{ path }} shows there ("~" when unbound / nil)
+			d, can := display(v)
+			if !ok || !can {
+				d = "~"
+			}
+			texts = append(texts, d)
+		case "cnt":
+			// ... and ctx.Stack().ForEach(path) iterates the collection in scope at the call site
+			n := 0
+			if ok {
+				n = len(elems(v))
+			}
+			texts = append(texts, strconv.Itoa(n))
 		case "type":
 			// the registered function type prints the Go type (%T) of its argument
 			if !ok || !isTask(v.K) {
